@@ -48,7 +48,12 @@ pub fn check_base_accepts(ctx: &mut Ctx, b: &Base) -> Option<(u64, u64)> {
         Some(r) if r.outcome.is_accept() => Some((r.ticks, r.bytes)),
         Some(r) => {
             // An honest run that is not accepted: completeness failure, reported under C03/C10 by
-            // those checks; here the base is unusable.
+            // those checks; here the base is unusable. A crash on an honest run is C18's business.
+            if let (Outcome::Panic { loc, .. }, "C18") = (&r.outcome, ctx.property.as_str()) {
+                let class = format!("C18|panic|{}", crate::monitor::short_loc(loc));
+                let rep = replay_envelope("C18", "c18.malformed", &ctx.variant, replay_body(b, &[], "panic", &r.outcome, json!({"generator": "honest base, no fault"})));
+                ctx.violation(&class, &format!("{} on the unfaulted honest base {}", r.outcome.describe(), b.name), rep);
+            }
             ctx.stats.skip(&format!("base-not-accepted:{}:{}", b.name, r.outcome.class()));
             None
         }
@@ -84,6 +89,13 @@ pub fn replacement_faults(image: &Value, leaf: &image::Leaf, rng: &mut Rng, all_
             };
             for (k, v) in chosen {
                 out.push((k.to_string(), Fault::Set { path: path.clone(), value: image::felt_hex(&v) }));
+            }
+            // numbers the verifier computes with: a change in the high part only (a conversion that
+            // keeps the low machine word must not make it invisible)
+            if is_numeric_field(&leaf.path) {
+                for (k, d) in [("plus2^64", models::pow2(64)), ("plus2^128", models::pow2(128)), ("plus2^32", models::pow2(32))] {
+                    out.push((k.to_string(), Fault::Set { path: path.clone(), value: image::felt_hex(&(f + d)) }));
+                }
             }
         }
         LeafKind::Num => {
@@ -791,6 +803,15 @@ pub fn c17(ctx: &mut Ctx) {
             work.extend(rest);
         }
         work.extend(byzantine_fri_redeclarations(&base.image));
+        // unused surplus entries with hostile values (not validated, not in the transcript)
+        for (nm, v) in extreme_felts() {
+            if ["5", "17", "30", "63", "2^16", "2^22", "2^26", "2^40", "2^64", "p-1"].contains(&nm) {
+                work.push((format!("surplus:{nm}"), vec![Fault::Append { path: "config.fri.fri_step_sizes".into(), value: Some(image::felt_hex(&v)) }]));
+            }
+        }
+        for v in [20u64, 24] {
+            work.push((format!("surplus:{v}"), vec![Fault::Append { path: "config.fri.fri_step_sizes".into(), value: Some(image::felt_hex(&Felt::from(v))) }]));
+        }
         // control: vector-length inflation (more data => more work, must stay in budget)
         for (p, len) in image::vectors(&base.image) {
             if len > 0 && len < 4096 {
